@@ -404,19 +404,32 @@ class Sec:
 
 
 def render_program(secs, first_id=0, skip=None):
-    """skip: {section index in secs: set(call indices)}"""
+    """skip: {section index in secs: set(call indices)} -> (source text, line map [(first line, last line, [section indices])])"""
     skip = skip or {}
     imports = {"math"}
-    pres = []
+    pres = []                       # (text, [section indices that need it])
     bodies = []
     for k, s in enumerate(secs):
         imports |= s.imports
-        if s.pre and s.pre not in pres:
-            pres.append(s.pre)
+        if s.pre:
+            for p in pres:
+                if p[0] == s.pre:
+                    p[1].append(k)
+                    break
+            else:
+                pres.append((s.pre, [k]))
         bodies.append(s.render(first_id + k, skip.get(k, ())))
-    src = ["package main", "", "import ("] + ['\t"%s"' % i for i in sorted(imports)] + [")", HELPERS] + pres + bodies
-    src += ["", "func main() {"] + ["\ts%d()" % (first_id + k) for k in range(len(secs))] + ['\tprintln("DONE")', "}", ""]
-    return "\n".join(src)
+    head = "\n".join(["package main", "", "import ("] + ['\t"%s"' % i for i in sorted(imports)] + [")", HELPERS])
+    parts = [(head, [])] + [(p[0], p[1]) for p in pres] + [(b, [k]) for k, b in enumerate(bodies)]
+    tail = "\n".join(["", "func main() {"] + ["\ts%d()" % (first_id + k) for k in range(len(secs))] + ['\tprintln("DONE")', "}", ""])
+    parts.append((tail, []))
+    linemap, line, texts = [], 1, []
+    for txt, owners in parts:
+        n = txt.count("\n") + 1
+        linemap.append((line, line + n - 1, owners))
+        line += n
+        texts.append(txt)
+    return "\n".join(texts), linemap
 
 
 def parse_output(lines):
@@ -864,6 +877,8 @@ def gen_args(pkg, name, g, rng, vol):
             return out
         if base == "RotateLeft":
             return [(v, k) for v in vals[::3] for k in (0, 1, -1, bits - 1, bits, bits + 1, -bits, 2 * bits + 3, -(3 * bits) - 5, rng.randrange(-200, 200))]
+        if name == "TrailingZeros":          # uint-sized: the result for 0 is the size of uint
+            vals = [v for v in vals if v != 0]
         return [(v,) for v in vals]
     # ---- utf8 / utf16
     if pkg == "unicode/utf8":
